@@ -21,7 +21,7 @@ from vmc.peers.h2peer import H2Peer
 
 
 class H2World:
-    def __init__(self, http_mode="regular", mode=None, server_address=("example.com", 80), validate_inbound=True, **kw):
+    def __init__(self, http_mode="regular", mode=None, server_address=("example.com", 80), validate_inbound=True, peer_settings=None, auto_release=True, **kw):
         hm = {"regular": HTTPMode.regular, "transparent": HTTPMode.transparent, "upstream": HTTPMode.upstream}[http_mode]
 
         def factory(ctx):
@@ -33,7 +33,10 @@ class H2World:
         if mode is None:
             mode = "regular" if http_mode != "upstream" else "upstream:http://proxy.test:8080"
         self.w = World(mode=mode, layer_factory=factory, **kw)
-        self.peer = H2Peer(client_side=True, validate_inbound=validate_inbound)
+        # peer_settings: e.g. {INITIAL_WINDOW_SIZE: 2}; auto_release=False leaves flow control to the caller
+        # (release_step), so that mitmproxy has to buffer what the peer's window does not admit yet
+        self.peer = H2Peer(client_side=True, settings=peer_settings, validate_inbound=validate_inbound)
+        self.auto_release = auto_release
         self._seen = 0
 
     def start(self):
@@ -42,8 +45,21 @@ class H2World:
         self.sync()
         return self
 
-    def sync(self, release=True):
+    def release_step(self, sid, n):
+        """the peer re-opens its window (stream and connection) by at most n of the bytes it has received; returns the grant"""
+        k = min(n, self.peer.unacked.get(sid, 0))
+        if k <= 0:
+            return 0
+        back = self.peer.release(sid, k)
+        if back and not self.w.client.r.eof and not self.w.done:
+            self.w.client_send(back)
+        self.sync()
+        return k
+
+    def sync(self, release=None):
         """deliver what mitmproxy wrote to the client into the peer; send the peer's answers (ACKs, window updates)"""
+        if release is None:
+            release = self.auto_release
         for _ in range(50):
             out = self.w.client.w.out
             if self._seen >= len(out):
